@@ -61,11 +61,11 @@ def _mk_data(db, wanted=None):
     return data, cap
 
 FIELD_SPELLINGS = ['crossref', 'CrossRef', 'CROSSREF']
-def bib_text(db):
+def bib_text(db, start=0):
     """the .bib file of a db: one @misc per entry, delimiters / field-name case / layout varied
     deterministically with the position (none of it may matter)"""
     out = []
-    for i, (k, cr) in enumerate(db):
+    for i, (k, cr) in enumerate(db, start):
         o, c = ('{', '}') if i % 3 != 2 else ('(', ')')
         fields = []
         if cr is not None:
@@ -92,7 +92,7 @@ def _all_keys(fn, a):
         if e[1]:
             ks.append(S(e[1][0]))
     cl = a[1]
-    if fn in (4, 5, 7):
+    if fn in (4, 5, 7, 11):
         cl = a[1][0] if a[1] else []
     return ks + [S(k) for k in cl]
 
@@ -117,7 +117,7 @@ def model_arg(fn, arg):
         return arg
     e = lambda k: norm(m[S(k)])
     db = [[e(x[0]), [e(x[1][0])] if x[1] else []] for x in arg[0]]
-    if fn in (4, 5, 7):
+    if fn in (4, 5, 7, 11):
         cl = [[e(k) for k in arg[1][0]]] if arg[1] else []
     else:
         cl = [e(k) for k in arg[1]]
@@ -323,24 +323,107 @@ def _bst_style():
         _BST_DIR[0] = d; _BST_DIR[1] = os.getpid()
     return os.path.join(_BST_DIR[0], 'cites')
 
+def _bibtex_out(db, cites, out, cap):
+    keys = []; seen_keys = []; seen_pos = []
+    for l in out.split('\n'):
+        if not l:
+            continue
+        parts = l.split('|')
+        keys.append(parts[0])
+        pos = [int(v) for v in parts[1:] if v != '-']
+        seen_pos.append(pos)
+        seen_keys.append(sorted(set(_enc1(db[i][0]).lower() for i in pos)))
+    # [cite$ of every entry, reports, per entry the keys of the entries whose fields it sees (compared
+    #  with the model), the same as file positions (for the oracle only)]
+    return _ci_out(cites, [keys, _reports(cap, _cands(db, cites)), seen_keys]) + [seen_pos]
+
 def impl_bibtex_engine(a):
     db, cites, m, strict = _db(a[0]), _keys(a[1]), a[2], a[3]
     def f():
         from pybtex.bibtex import BibTeXEngine
         out, cap = _strict_call(strict, lambda: BibTeXEngine().format_from_string(
             bib_text(db), style=_bst_style(), citations=list(cites), min_crossrefs=m))
-        keys = []; seen_keys = []; seen_pos = []
-        for l in out.split('\n'):
-            if not l:
-                continue
-            parts = l.split('|')
-            keys.append(parts[0])
-            pos = [int(v) for v in parts[1:] if v != '-']
-            seen_pos.append(pos)
-            seen_keys.append(sorted(set(_enc1(db[i][0]).lower() for i in pos)))
-        # [cite$ of every entry, reports, per entry the keys of the entries whose fields it sees (compared
-        #  with the model), the same as file positions (for the oracle only)]
-        return _ci_out(cites, [keys, _reports(cap, _cands(db, cites)), seen_keys]) + [seen_pos]
+        return _bibtex_out(db, cites, out, cap)
+    return call_impl(f)
+
+# ---- multi-source entry points: the database is the concatenation of the sources in the order given
+SRC_NAMES = ['zeta', 'alpha', 'mid']           # deliberately not in alphabetical order
+def _sources(db, cuts):
+    """split db into consecutive sources of the given sizes; each rendered with the GLOBAL entry positions"""
+    out = []; i = 0
+    for n in cuts:
+        out.append(bib_text(db[i:i + n], start=i)); i += n
+    if i < len(db):
+        out.append(bib_text(db[i:], start=i))
+    return out
+
+class _SrcDir(object):
+    """a private temp directory with the sources as zeta.bib, alpha.bib, mid.bib ...; removed on exit"""
+    def __init__(self, texts):
+        self.texts = texts
+    def __enter__(self):
+        self.d = tempfile.mkdtemp(prefix='c05src')
+        self.bases = []
+        for n, t in zip(SRC_NAMES + ['s%d' % i for i in range(len(self.texts))], self.texts):
+            b = os.path.join(self.d, n); self.bases.append(b)
+            with io.open(b + '.bib', 'w', encoding='utf-8') as f:
+                f.write(t)
+        return self
+    def aux(self, cites, style):
+        p = os.path.join(self.d, 'doc.aux')
+        with io.open(p, 'w', encoding='utf-8') as f:
+            f.write('\\relax\n' + ''.join('\\citation{%s}\n' % c for c in cites)
+                    + '\\bibdata{%s}\n\\bibstyle{%s}\n' % (','.join(self.bases), style))
+        return p
+    def __exit__(self, *a):
+        shutil.rmtree(self.d, True)
+
+def impl_parse_files(a):
+    db = _db(a[0]); wanted = _keys(a[1][0]) if a[1] else None; cuts = a[2]
+    def f():
+        from pybtex.database.input.bibtex import Parser
+        from pybtex import errors
+        with _SrcDir(_sources(db, cuts)) as sd:
+            with errors.capture() as cap:
+                data = Parser(wanted_entries=wanted).parse_files(sd.bases, '.bib')
+                cap = list(cap)
+        return _ci_out(wanted or [], [_entries_of(data), _reports(cap, _cands(db, wanted))])
+    return call_impl(f)
+
+def _multi_run(engine_cls, db, cites, m, strict, cuts, mode, style, **kw):
+    """mode 0: format_from_strings, 1: format_from_files, 2: make_bibliography(.aux with \\bibdata{zeta,alpha,..})"""
+    texts = _sources(db, cuts)
+    if mode == 0:
+        return _strict_call(strict, lambda: engine_cls().format_from_strings(texts, style=style, citations=list(cites), min_crossrefs=m, **kw))
+    with _SrcDir(texts) as sd:
+        if mode == 1:
+            return _strict_call(strict, lambda: engine_cls().format_from_files([b + '.bib' for b in sd.bases], style=style, citations=list(cites), min_crossrefs=m, **kw))
+        aux = sd.aux(cites, style)
+        def run():
+            engine_cls().make_bibliography(aux, min_crossrefs=m, **kw)
+            outs = [n for n in os.listdir(sd.d) if n.startswith('doc.') and n != 'doc.aux']
+            return io.open(os.path.join(sd.d, outs[0]), encoding='utf-8').read() if outs else ''
+        return _strict_call(strict, run)
+
+def impl_bibtex_multi(a):
+    db, cites, m, strict, cuts, mode = _db(a[0]), _keys(a[1]), a[2], a[3], a[4], a[5]
+    def f():
+        from pybtex.bibtex import BibTeXEngine
+        out, cap = _multi_run(BibTeXEngine, db, cites, m, strict, cuts, mode, _bst_style())
+        return _bibtex_out(db, cites, out, cap)
+    return call_impl(f)
+
+def impl_py_multi(a):
+    db, cites, m, strict, cuts, mode = _db(a[0]), _keys(a[1]), a[2], a[3], a[4], a[5]
+    def f():
+        from pybtex import PybtexEngine
+        try:
+            out, cap = _multi_run(PybtexEngine, db, cites, m, strict, cuts, mode, 'unsrt')
+        except ValueError:
+            out, cap = _multi_run(PybtexEngine, db, cites, m, strict, cuts, mode, 'unsrt', output_backend=_key_backend())
+            if _BIBITEM.findall(out):
+                raise
+        return _ci_out(cites, [_BIBITEM.findall(out), _reports(cap, _cands(db, cites))])
     return call_impl(f)
 
 def impl_select_unfiltered(a):
@@ -371,7 +454,14 @@ FUNCS = {
     8: ('PybtexEngine.format_from_string (\\bibitem keys)', impl_py_engine, ('T', DB, CITES, 'N', 'B')),
     9: ('BibTeXEngine.format_from_string (cite$ of every entry)', impl_bibtex_engine, ('T', DB, CITES, 'N', 'B')),
     10: ('unfiltered parse_string + add_extra_citations + selection', impl_select_unfiltered, ('T', DB, CITES, 'N')),
+    11: ('bibtex Parser(wanted_entries).parse_files (2-3 sources)', impl_parse_files, ('T', DB, ('O', CITES), 'X')),
+    12: ('BibTeXEngine.format_from_strings / format_from_files / make_bibliography(.aux) (2-3 sources)', impl_bibtex_multi, ('T', DB, CITES, 'N', 'B', 'X', 'X')),
+    13: ('PybtexEngine.format_from_strings / format_from_files / make_bibliography(.aux) (2-3 sources)', impl_py_multi, ('T', DB, CITES, 'N', 'B', 'X', 'X')),
 }
+# core's order-independence replay re-runs ~190 cases per function twice in one process; the Python engine end to end
+# costs 22 ms a case -- it stays in the replay through fn 13 (same PybtexEngine code, other entry points)
+ORDER_REPLAY_SKIP_FUNCS = (8,)
+BASE_FN = {11: 5, 12: 9, 13: 8}        # the multi-source entry points answer like these on the concatenation
 
 FUNCS = dict((fn, (v[0], _wrap(fn, v[1]), v[2])) for fn, v in FUNCS.items())
 
@@ -384,6 +474,7 @@ def canon(fn, r):
         return [1]
     if r[0] != 0:
         return r
+    fn = BASE_FN.get(fn, fn)
     v = r[1]
     if fn == 1:
         return r
@@ -556,8 +647,10 @@ def _check_selection(db, cites, m, keys, reps, filtered, label):
 
 def oracle(fn, arg, out):
     out = decode_out(fn, arg, out)
+    label = FUNCS[fn][0]
+    fn = BASE_FN.get(fn, fn)
     if not (isinstance(out, list) and out) or out[0] == 2:
-        return 'foreign (non-pybtex) exception in %s' % FUNCS[fn][0]
+        return 'foreign (non-pybtex) exception in %s' % label
     db = _db(arg[0])
     if fn in (4, 5):
         wanted = _keys(arg[1][0]) if arg[1] else None
@@ -593,7 +686,7 @@ def oracle(fn, arg, out):
                 for k, _ in ents:
                     if low(k) in sp and sp[low(k)] != k:
                         return 'entry stored as %r although it is cited as %r' % (k, sp[low(k)])
-            return _check_kept(db, wanted, [k for k, _ in ents], FUNCS[fn][0])
+            return _check_kept(db, wanted, [k for k, _ in ents], label)
         return None
     cites = _keys(arg[1]) if fn != 7 else (_keys(arg[1][0]) if arg[1] else None)
     m = arg[2] if len(arg) > 2 else 1
@@ -613,9 +706,9 @@ def oracle(fn, arg, out):
             return None if dup else 'strict run raised although nothing is missing, dangling or repeated'
         if missing or dangling:
             return 'strict run did not raise although %r missing / %r dangling' % (missing, dangling)
-        return _check_selection(db, cites, m, _keys(out[1][0]), [], True, FUNCS[fn][0])
+        return _check_selection(db, cites, m, _keys(out[1][0]), [], True, label)
     if out[0] != 0:
-        return '%s raised under capture' % FUNCS[fn][0]
+        return '%s raised under capture' % label
     keys = _keys(out[1][0]) if fn != 1 else _keys(out[1])
     reps = [_keys(r) for r in out[1][1]] if fn != 1 else []
     if fn == 1:
@@ -642,17 +735,17 @@ def oracle(fn, arg, out):
             if not _covers(reps, [c, p]):
                 return 'dangling cross-reference %r -> %r was not reported' % (c, p)
         return None
-    msg = _check_selection(db, cites, m, keys, reps, fn in (6, 8, 9), FUNCS[fn][0])
+    msg = _check_selection(db, cites, m, keys, reps, fn in (6, 8, 9), label)
     if msg:
         return msg
     if fn == 6 and len(out[1]) > 2:
-        return _check_kept(db, cites, _keys(out[1][2]), FUNCS[fn][0])
+        return _check_kept(db, cites, _keys(out[1][2]), label)
     if fn == 9 and len(out[1]) > 3:
         whole = [(k, cr, i) for i, (k, cr) in enumerate(db)]
         for k, pos in zip(keys, out[1][3]):
             want = chain_positions(whole, k)
             if sorted(pos) != want:
-                msg = '%s: entry %r sees the fields of the entries at file positions %r, in the whole database it inherits from %r' % (FUNCS[fn][0], k, sorted(pos), want)
+                msg = '%s: entry %r sees the fields of the entries at file positions %r, in the whole database it inherits from %r' % (label, k, sorted(pos), want)
                 if f13_general(db, cites) and sorted(pos) == chain_positions(filtered_db_pos(db, cites), k):
                     return 'F13-pattern: ' + msg
                 return msg
@@ -660,14 +753,14 @@ def oracle(fn, arg, out):
 
 # ---------------------------------------------------------------------------------------------
 def _sig_cites(fn, arg):
-    if fn in (4, 5):
+    if fn in (4, 5, 11):
         return _keys(arg[1][0]) if arg[1] else None
     return _keys(arg[1])
 KNOWN_SIGNATURES = {
     # narrow: the oracle itself recognises the pattern (an uncited cross-reference target placed before an entry
     # reachable from the citations, filtered reading, no wildcard) AND that the output is exactly what
     # skipping the not-yet-wanted entries explains
-    'F13': lambda kind, fn, arg, detail: (kind == 'oracle' and fn in (4, 5, 6, 8, 9) and isinstance(detail, str)
+    'F13': lambda kind, fn, arg, detail: (kind == 'oracle' and fn in (4, 5, 6, 8, 9, 11, 12, 13) and isinstance(detail, str)
                                           and detail.startswith('F13-pattern: ') and _sig_cites(fn, arg) is not None
                                           and f13_general(_db(arg[0]), _sig_cites(fn, arg))),
 }
@@ -691,7 +784,7 @@ def describe_out(out):
 
 def describe(fn, a):
     d = {'function': FUNCS[fn][0], 'database (file order)': ['%s -> %s' % (k, cr) if cr is not None else k for k, cr in _db(a[0])]}
-    if fn in (4, 5):
+    if fn in (4, 5, 11):
         d['wanted_entries'] = _keys(a[1][0]) if a[1] else None
     elif fn == 7:
         d['citations'] = _keys(a[1][0]) if a[1] else None
@@ -699,7 +792,11 @@ def describe(fn, a):
         d['citations'] = _keys(a[1])
     if len(a) > 2:
         d['min_crossrefs'] = a[2]
-    if len(a) > 3:
+    if fn in (12, 13):
+        d['strict'] = bool(a[3]); d['source sizes'] = a[4]; d['entry point'] = ['format_from_strings', 'format_from_files', 'make_bibliography(.aux)'][a[5]]
+    elif fn == 11:
+        d.pop('min_crossrefs', None); d['source sizes'] = a[2]
+    elif len(a) > 3:
         d['strict'] = bool(a[3])
     return d
 
@@ -707,6 +804,7 @@ def nontrivial(fn, a, out):
     """something happened: the selected list differs from the citation list as given, or a report was made"""
     if out[0] != 0:
         return True
+    fn = BASE_FN.get(fn, fn)
     if fn in (4, 5):
         return len(out[1][0]) != len(a[0]) or bool(out[1][1])
     if fn == 1:
@@ -770,7 +868,7 @@ def gen(tier, rng):
     cls = list(cite_lists(lmax))
     for n in range(nmax + 1):
         kdb = [[DBKEYS[i], []] for i in range(n)]
-        for cl in cite_lists(4 if not thorough else 5):
+        for cl in cite_lists(3 if not thorough else 5):
             yield ('exhaustive', 1, [kdb, cl])
     j = 0                                         # counts (db, citation list) pairs; strides use j + m so that
     for db in dbs:                                # every min_crossrefs is sampled evenly
@@ -787,9 +885,9 @@ def gen(tier, rng):
                     if k % 32 == 0:
                         yield ('exhaustive', 6, [db, cl, m, 0])
                     continue
-                if thorough or k % 2 == 1 or len(cl) <= 2:
+                if thorough or k % 3 == 1 or len(cl) <= 2:
                     yield ('exhaustive', 3, [db, cl, m])
-                if thorough or k % 2 == 0 or len(cl) <= 2:
+                if thorough or k % 3 == 0 or len(cl) <= 2:
                     yield ('exhaustive', 6, [db, cl, m, 0])
                 if k % 8 == 0 or (thorough and k % 2 == 0):
                     yield ('exhaustive', 7, [db, [cl], m])
@@ -897,6 +995,35 @@ def gen(tier, rng):
                             yield ('threshold', 2, [dbv, cl, m])
                         if kk % (6 if thorough else 40) == 0:
                             yield ('threshold', 8, [dbv, cl, m, 0])
+    # (a4) multi-source databases: the database is the concatenation of 2-3 sources in the order given (files
+    # named zeta, alpha, mid -- not alphabetical); through Parser.parse_files, format_from_strings,
+    # format_from_files and make_bibliography(.aux with \\bibdata{zeta,alpha,mid}) of both engines
+    MS_DBS = [
+        [['x1', []], ['Y2', []], ['z3', []]],
+        [['c0', ['g1']], ['k2', []], ['G1', ['G2']], ['g2', []]],                       # children in earlier sources than parents
+        [['a1', ['ConfA']], ['b1', ['confb']], ['a2', ['ConfA']], ['confA', []], ['ConfB', []]],
+        [['P', []], ['C', ['P']], ['q', []]],                                            # F13 order
+        [['x1', []], ['k', ['X1']], ['X1', ['nowhere']]],                                # repeated key in a later source
+    ]
+    jms = 0
+    for db in MS_DBS:
+        n = len(db)
+        keys = [e[0] for e in db]
+        kid = [e[0] for e in db if e[1]][:2]
+        cls_ms = [['*'], ['*', keys[-1].swapcase()], [keys[0], '*'], kid[:1], kid, [keys[-1], keys[0], 'unknown']]
+        cutss = [[i] for i in range(1, n)] + [[i, j - i] for i in range(1, n) for j in range(i + 1, n)]
+        for cuts in cutss:
+            for cl in cls_ms:
+                jms += 1
+                yield ('multisource', 11, [db, [cl], cuts])
+                for m in (1, 2):
+                    for mode in (0, 1, 2):
+                        if mode == 2 and not consistent(cl):
+                            continue
+                        if True:
+                            yield ('multisource', 12, [db, cl, m, 0, cuts, mode])
+                        if (jms + m + mode) % (3 if thorough else 12) == 0:
+                            yield ('multisource', 13, [db, cl, m, 0, cuts, mode])
     # (a'') keys beyond ASCII: pairs that str.lower() keeps apart although str.casefold() / NFKC would merge them
     # (they are DIFFERENT entries), and pairs that str.lower() identifies (they are the SAME entry)
     APART = [('weiss2019', 'wei\u00df2019'), ('\u017f1', 's1'), ('\u03c22', '\u03c32'), ('\ufb01x', 'fix'), ('A\u03a3', 'a\u03c3')]
@@ -1013,7 +1140,7 @@ def gen(tier, rng):
         if all(k and k != '' for k, _ in db):
             yield ('malformed', 6, [db, cl, m, 0])
 
-RULE = ('threshold: 2-3 uncited parents with 1-4 children each, the children of different parents interleaved in every order in the citation list (all interleavings; the larger ones strided in the quick tier), min_crossrefs 1..4, a child cited twice in another case, a parent cited explicitly, \'*\' first / last, through add_extra_citations, command_read, both engines, format_bibliography, unfiltered selection; unicode: database keys and citations from pairs that str.lower() keeps apart but casefold would merge (ss/\u00df, \u017f/s, \u03c2/\u03c3, \ufb01/fi) and pairs that str.lower() identifies (\u00c9/\u00e9, \u03a3/\u03c3, Kelvin sign/k), through every function; chains: cross-reference chains of length 0..3 (every file order, every subset of the chain cited, with/without \'*\', with/without a sibling, min_crossrefs 1..3) through the bibtex parser with wanted_entries, command_read (incl. the keys left in bib_data.entries) and both engines end to end; exhaustive: every database of N <= 3 entries (keys x1, Y2, z3; each entry with crossref in {none, X1, Y2, Z3, dangling q9}) x every '
+RULE = ('multisource: five databases split into 2-3 consecutive sources in every way (files zeta, alpha, mid), \'*\' alone / mixed with keys, children in earlier sources than their parents, through Parser.parse_files, format_from_strings, format_from_files and make_bibliography(.aux) of both engines, answered like the single-source entry points on the concatenation; threshold: 2-3 uncited parents with 1-4 children each, the children of different parents interleaved in every order in the citation list (all interleavings; the larger ones strided in the quick tier), min_crossrefs 1..4, a child cited twice in another case, a parent cited explicitly, \'*\' first / last, through add_extra_citations, command_read, both engines, format_bibliography, unfiltered selection; unicode: database keys and citations from pairs that str.lower() keeps apart but casefold would merge (ss/\u00df, \u017f/s, \u03c2/\u03c3, \ufb01/fi) and pairs that str.lower() identifies (\u00c9/\u00e9, \u03a3/\u03c3, Kelvin sign/k), through every function; chains: cross-reference chains of length 0..3 (every file order, every subset of the chain cited, with/without \'*\', with/without a sibling, min_crossrefs 1..3) through the bibtex parser with wanted_entries, command_read (incl. the keys left in bib_data.entries) and both engines end to end; exhaustive: every database of N <= 3 entries (keys x1, Y2, z3; each entry with crossref in {none, X1, Y2, Z3, dangling q9}) x every '
         'citation list up to the length bound over {X1, x1, y2, z3, unknown q9, *} x min_crossrefs 1..min(N,2) (quick) / 1..N (thorough), through add_extra_citations, '
         'Interpreter.command_read (parse-time filtering) and, strided, format_bibliography / unfiltered selection / '
         '_get_crossreferenced_citations; the same databases x wanted lists through BibliographyData(entries, wanted_entries) and the '
